@@ -1,2 +1,3 @@
 //! Shared helpers of the correspondence harness: PRNG, hex encoding, config decoding.
 pub mod util;
+pub mod sched;
